@@ -516,6 +516,53 @@ func Common(id string, p *core.Prog, r *core.Report) {
 		})
 	}
 
+	// what one request's fan-out reports is collected on a channel of that request: in the strategies no channel kept
+	// in a service field is sent to or received from (a late answer to one request would be taken for the next one's)
+	for _, f := range fns {
+		if !strings.HasPrefix(core.RelPkg(f.Pkg.Pkg.Path()), "strategies/") {
+			continue
+		}
+		fromField := func(ch ssa.Value) (core.FieldID, bool) {
+			if ld, ok := ch.(*ssa.UnOp); ok && ld.Op == token.MUL {
+				if fid, base, ok := core.FieldOfAddr(ld.X); ok {
+					if bt, ok := base.Type().(*types.Pointer); ok {
+						if bn, ok := bt.Elem().(*types.Named); ok && bn.Obj().Name() == "Service" {
+							return fid, true
+						}
+					}
+				}
+			}
+			return core.FieldID{}, false
+		}
+		core.EachInstr(f, func(in ssa.Instruction) {
+			var ch ssa.Value
+			switch x := in.(type) {
+			case *ssa.Send:
+				ch = x.Chan
+			case *ssa.UnOp:
+				if x.Op == token.ARROW {
+					ch = x.X
+				}
+			case *ssa.Select:
+				for _, st := range x.States {
+					if fid, ok := fromField(st.Chan); ok {
+						r.Violate(id+".x", core.FnKey(f)+"|request-channel-in-service-field|"+fid.Name, p.Pos(st.Pos), "the channel "+fid.String()+" on which answers are collected is kept in the service, not made for the request: an answer that arrives after its request has returned is taken for the answer to the next request")
+					}
+				}
+			}
+			if ch != nil {
+				if fid, ok := fromField(ch); ok {
+					r.Violate(id+".x", core.FnKey(f)+"|request-channel-in-service-field|"+fid.Name, p.Pos(in.Pos()), "the channel "+fid.String()+" on which answers are collected is kept in the service, not made for the request: an answer that arrives after its request has returned is taken for the answer to the next request")
+				}
+			}
+		})
+	}
+
+	// wiring: every functional option of a package sets a parameters field of its own, from its own argument (two
+	// options that set one field: the second silently overrides the first and its own field keeps the default); and
+	// the constructor takes a parameters field over into the service field of the same name as it is
+	checkWiring(id, p, r, fns)
+
 	// a closure that is run later (scheduled, or started as a goroutine) from inside a loop does not share a variable
 	// that lives outside the loop and is assigned inside it: every closure would see the value of the last iteration
 	for _, f := range fns {
@@ -585,18 +632,20 @@ func Common(id string, p *core.Prog, r *core.Report) {
 // both). The sibling pack is run and the obligations of the listed rules are taken over under this property's
 // id, so that a change that breaks the shared mechanism is reported by every property that relies on it.
 var imports = map[string][]string{
-	"C03": {"C02.d", "C02.i"},
-	"C09": {"C11.i", "C16.i"},
-	"C10": {"C12.j"},
+	"C03": {"C02.d", "C02.i", "C02.m", "C02.n"},
+	"C09": {"C11.i", "C16.i", "C10.n"},
+	"C10": {"C12.j", "C11.n", "C11.a"},
 	"C11": {"C12.l", "C12.m", "C12.j", "C10.f", "C10.k", "C10.e"},
 	"C15": {"C17.i", "C13.c", "C17.h", "C03.t", "C03.v"},
-	"C20": {"C02.d", "C05.e", "C12.l", "C18.e"},
-	"C05": {"C06.g", "C09.e"},
-	"C04": {"C06.g", "C03.j", "C01.f", "C01.g", "C05.k"},
-	"C06": {"C05.k"},
+	"C20": {"C02.d", "C05.e", "C12.l", "C18.e", "C02.n"},
+	"C05": {"C06.g", "C09.e", "C07.i"},
+	"C04": {"C06.g", "C03.j", "C01.f", "C01.g", "C05.k", "C06.e", "C13.f"},
+	"C06": {"C05.k", "C14.f", "C15.c"},
 	"C12": {"C05.k"},
 	"C08": {"C19.8"},
-	"C14": {"C03.o", "C03.f"},
+	"C07": {"C19.4"},
+	"C13": {"C15.j"},
+	"C14": {"C03.o", "C03.f", "C06.k"},
 }
 
 // RunImports takes over the listed sibling obligations into r (rule id "<this>.y", construct prefixed by the origin).
@@ -649,5 +698,152 @@ func RunImports(id string, p *core.Prog, r *core.Report, tier string) {
 			}
 		}
 		r.Floor(id+".y obligations taken over from "+pk, n, 1)
+	}
+}
+
+// checkWiring: see Common.
+func checkWiring(id string, p *core.Prog, r *core.Report, fns []*ssa.Function) {
+	type setter struct {
+		opt *ssa.Function
+		pos token.Pos
+	}
+	byPkgField := map[string]map[string][]setter{}
+	nOpt := 0
+	for _, f := range fns {
+		if f.Parent() == nil || !strings.HasPrefix(f.Parent().Name(), "With") || f.Parent().Signature.Recv() != nil {
+			continue
+		}
+		// the closure of an option: one parameter, a pointer to the package's parameters struct
+		if len(f.Params) != 1 {
+			continue
+		}
+		pt, ok := f.Params[0].Type().(*types.Pointer)
+		if !ok {
+			continue
+		}
+		nt, ok := pt.Elem().(*types.Named)
+		if !ok || nt.Obj().Name() != "parameters" {
+			continue
+		}
+		nOpt++
+		pkg := core.RelPkg(f.Pkg.Pkg.Path())
+		if byPkgField[pkg] == nil {
+			byPkgField[pkg] = map[string][]setter{}
+		}
+		core.EachInstr(f, func(in ssa.Instruction) {
+			st, ok := in.(*ssa.Store)
+			if !ok {
+				return
+			}
+			fid, base, ok := core.FieldOfAddr(st.Addr)
+			if !ok || base != ssa.Value(f.Params[0]) {
+				return
+			}
+			byPkgField[pkg][fid.Name] = append(byPkgField[pkg][fid.Name], setter{f.Parent(), st.Pos()})
+		})
+	}
+	nDup := 0
+	var pkgs []string
+	for k := range byPkgField {
+		pkgs = append(pkgs, k)
+	}
+	sort.Strings(pkgs)
+	for _, pkg := range pkgs {
+		var flds []string
+		for k := range byPkgField[pkg] {
+			flds = append(flds, k)
+		}
+		sort.Strings(flds)
+		for _, fld := range flds {
+			ss := byPkgField[pkg][fld]
+			opts := map[*ssa.Function]bool{}
+			for _, s := range ss {
+				opts[s.opt] = true
+			}
+			if len(opts) < 2 {
+				continue
+			}
+			var names []string
+			for o := range opts {
+				names = append(names, o.Name())
+			}
+			sort.Strings(names)
+			nDup++
+			r.Violate(id+".x", pkg+"|option-field-set-twice|"+fld, p.Pos(ss[len(ss)-1].pos), "the options "+strings.Join(names, " and ")+" of "+pkg+" both set the parameters field "+fld+": whichever is applied last overrides the other, and the field one of them is named after keeps its default")
+		}
+	}
+	if nOpt > 0 && nDup == 0 {
+		r.Hold(id+".x", "options-set-distinct-fields", "", fmt.Sprintf("%d functional options in the property's packages, no parameters field set by two of them", nOpt))
+	}
+
+	// constructors
+	nCopy := 0
+	for _, f := range fns {
+		if f.Name() != "New" || f.Parent() != nil || f.Signature.Recv() != nil {
+			continue
+		}
+		for _, sl := range core.StructLits(f, "Service") {
+			if sl.Alloc.Type().(*types.Pointer).Elem().(*types.Named).Obj().Pkg() != f.Pkg.Pkg {
+				continue
+			}
+			var flds []string
+			for k := range sl.Fields {
+				flds = append(flds, k)
+			}
+			sort.Strings(flds)
+			for _, fld := range flds {
+				v := sl.Fields[fld]
+				for {
+					switch x := v.(type) {
+					case *ssa.ChangeInterface:
+						v = x.X
+						continue
+					case *ssa.ChangeType:
+						v = x.X
+						continue
+					case *ssa.MakeInterface:
+						v = x.X
+						continue
+					}
+					break
+				}
+				// does the parameters struct have a field of this name?  found through any load of it in New
+				var paramLoad ssa.Value
+				hasField := false
+				sameType := false
+				core.EachInstr(f, func(in ssa.Instruction) {
+					ld, ok := in.(*ssa.UnOp)
+					if !ok || ld.Op != token.MUL {
+						return
+					}
+					fid, base, ok := core.FieldOfAddr(ld.X)
+					if !ok || fid.Name != fld {
+						return
+					}
+					if bt, ok := base.Type().(*types.Pointer); ok {
+						if bn, ok := bt.Elem().(*types.Named); ok && bn.Obj().Name() == "parameters" {
+							hasField = true
+							if types.Identical(ld.Type(), v.Type()) {
+								sameType = true
+							}
+							if ssa.Value(ld) == v {
+								paramLoad = ld
+							}
+						}
+					}
+				})
+				if !hasField || (!sameType && paramLoad == nil) {
+					// no such setting, or an object of another type built from it (parsed endpoints, compiled expressions)
+					continue
+				}
+				nCopy++
+				if paramLoad == nil {
+					r.Violate(id+".x", core.FnKey(f)+"|constructor-takes-parameter-as-is|"+fld, p.Pos(sl.Stores[fld].Pos()), "the service field "+fld+" is not the parameters field of the same name as it was configured, but a value computed from it ("+core.NewDescriber().D(v).String()+"): the configured setting is altered on the way into the service")
+				}
+			}
+		}
+	}
+	if nCopy > 0 {
+		r.Count("service fields taken over from same-named parameters", nCopy)
 	}
 }
